@@ -27,9 +27,12 @@ def rand_label(rng: random.Random, allow_long: bool) -> str:
         return 'L' * n
     if ASCII_ONLY:
         return 'q' * rng.choice([1, 7, 63])
-    # multi-byte characters near the 63 byte limit
-    n = rng.choice([10, 20, 21])
-    return 'é' * n + rng.choice(['', 'a', 'ab', 'abc'])
+    # multi-byte characters at the 63 octet limit: 60-63 octets in 31-33 characters, and (in messages that may carry over-long
+    # labels) labels of fewer than 64 characters but more than 63 octets
+    if allow_long and rng.random() < 0.5:
+        return rng.choice(['é' * 32, 'é' * 40, '日' * 22, 'é' * 31 + 'ab'])
+    n = rng.choice([10, 30, 30, 31])
+    return 'é' * n + rng.choice(['', 'a'] if n == 31 else ['', 'a', 'ab', 'abc'])
 
 
 def rand_name(rng: random.Random, suffixes: List[str], allow_long: bool) -> str:
